@@ -317,9 +317,13 @@ class Rewriter:
             n = self.text.count(old)
             res = self.text.replace(old, new)
         if count is not None and n != count:
-            raise ExtractError(
-                "%s: substitution %r expected %s hits, found %d" % (self.label, old, count, n)
-            )
+            # The expected count documents the unchanged tree. A different count on a changed tree is
+            # recorded (evidence: rules["R5-drift"], notes) and NOT fatal: every substitution either
+            # stubs a construct Verus cannot take (left unsubstituted it does not compile: exit 2) or
+            # rewrites a call into an equivalent one, so judging the changed code is sounder than
+            # giving up on it.
+            self.hit("R5-drift")
+            self.notes = getattr(self, "notes", []) + ["substitution %r expected %s hits, found %d" % (old, count, n)]
         self.text = res
         self.hit("R5", n)
 
